@@ -64,7 +64,9 @@ RULE = ('case = (chain of policy specs, recipient list, original header block, b
         'tuppeel: returns a tuple). Recipients: 0..8 (sometimes 12..40) drawn with replacement from a small pool '
         '(duplicates, mixed-case domains, no "@", empty domain, empty string, two "@", UTF-8 local parts and '
         'domains, up to 8 domains). Forward rules: str or compiled patterns (with flags), str or function '
-        'replacements, count 0/1/2, rules whose result is the empty string. Header blocks: plain, or odd (empty '
+        'replacements, count 0/1/2, rules whose result is the empty string, rules with the same pattern text '
+        '(other flags / replacement / count, str vs compiled, one compiled object registered twice; both '
+        'orders). Header blocks: plain, or odd (empty '
         'valued / repeated Date and Message-Id, look-alike names, folded, 8-bit, RFC 2047, bare-LF, a line that '
         'is no header, none). non-trivial & distinct = distinct (chain kinds, recipient list) whose chain has >= 1 '
         'split/domsplit/peel/genpeel/tuppeel and whose recipient list has >= 2 distinct lower-cased domains or a '
@@ -81,7 +83,7 @@ ASSUMPTIONS = ['a forwarding rule whose result is the empty string: the document
 REQUIRED_HITS = ['write-recorded', 'rcpt-multiset-compared', 'sender-body-compared', 'alias-probed',
                  'idgraph-walked', 'date-mid-judged', 'received-judged', 'unmatched-unchanged-judged',
                  'odd-header-block-judged', 'header-bytes-compared', 'utf8-rcpt-judged',
-                 'empty-result-rule-judged', 'compiled-pattern-judged', 'second-enqueue-judged',
+                 'empty-result-rule-judged', 'compiled-pattern-judged', 'same-pattern-text-rules-judged', 'second-enqueue-judged',
                  'direct-path-compared', 'generator-form-judged', 'sparse-client-received-judged',
                  'store-pool-enqueue-judged', 'shared-policy-object-judged']
 SHARDS = {'quick': 8, 'thorough': 16}
@@ -127,6 +129,24 @@ EMPTY_POOL = [
     (r'.+', '', 0),
     (r'^nodomain\d$', '', 1),
     (r'[^@]+@(?:d1|e\d)\.test', 'FN:empty', 0),
+]
+# Ordered rule pairs with the SAME pattern text (flags 's' = one compiled object shared by the rules of
+# that text in the Forward): the rules count as given, the first that matches wins -- a later twin is
+# reachable exactly when its flags make it match what the earlier one does not.
+TWIN_POOL = [
+    [(r'@e1\.test$', '@first.test', 0), (r'@e1\.test$', '@second.test', 0, 'ci')],
+    [(r'@e1\.test$', '@first.test', 0, 'ci'), (r'@e1\.test$', '@second.test', 0)],
+    [(r'@d3\.test$', '@p.test', 0, 'c'), (r'@d3\.test$', '@q.test', 0, 'ci')],
+    [(r'@d3\.test$', '@p.test', 0, 'ci'), (r'@d3\.test$', '@q.test', 0, 'c')],
+    [(r'^a@', 'lower-a@', 0), (r'^a@', 'any-a@', 1, 'ci')],
+    [(r'^alias@', 'one@', 0), (r'^alias@', 'two@', 0, 'c')],
+    [(r'^alias@', 'one@', 0, 'c'), (r'^alias@', 'two@', 0)],
+    [(r'^x', 'y', 0), (r'^x', 'z', 0)],
+    [(r'a', 'bb', 1), (r'a', 'bb', 0)],
+    [(r'a', 'bb', 0), (r'a', 'bb', 1)],
+    [(r'a', 'bb', 2, 'c'), (r'a', 'bb', 1, 'c')],
+    [(r'@old\.test$', '@o1.test', 0, 'cs'), (r'@old\.test$', '@o2.test', 0, 'cs')],
+    [(r'@e2\.test$', '@s1.test', 0, 'cis'), (r'@e2\.test$', '@s2.test', 0, 'cis'), (r'@e2\.test$', '@s3.test', 0)],
 ]
 LOCALS = ['a', 'b', 'alias', 'x1', 'c', 'A', 'a@b']
 DOMAINS = ['d1.test', 'D1.test', 'old.test', 'd3.test', 'D3.Test', '', 'e1.test', 'e2.test', 'e3.test',
@@ -316,6 +336,10 @@ def mk_spec(kind, rnd, wide):
                 rules.insert(rnd.randrange(len(rules) + 1), list(rnd.choice(EMPTY_POOL)))
             if rnd.random() < 0.3:
                 rules = [r if len(r) > 3 else r + ['c'] for r in rules]
+            if rnd.random() < 0.35:
+                for tw in rnd.choice(TWIN_POOL):         # in order, other rules may sit between them
+                    at = [i for i, r in enumerate(rules) if r[0] == tw[0]]
+                    rules.insert(rnd.randrange(at[-1] + 1 if at else 0, len(rules) + 1), list(tw))
         return ['forward', rules]
     return [kind]
 
@@ -366,8 +390,14 @@ def build_policy(spec):
         return RecipientDomainSplit()
     if k == 'forward':
         f = Forward()
+        shared = {}
         for rule in spec[1]:
-            f.add_mapping(_compiled(rule) if 'c' in _flags(rule) else rule[0], _repl(rule[1]), rule[2])
+            pat = rule[0]
+            if 's' in _flags(rule):
+                pat = shared.setdefault((rule[0], 'i' in _flags(rule)), _compiled(rule))
+            elif 'c' in _flags(rule):
+                pat = _compiled(rule)
+            f.add_mapping(pat, _repl(rule[1]), rule[2])
         return f
     if k == 'date':
         return AddDateHeader()
@@ -922,6 +952,12 @@ def run_case(case, R):
                 R.hit('empty-result-rule-judged')
             if any(s[0] == 'forward' and any('c' in _flags(r) for r in s[1]) for s in case['chain']):
                 R.hit('compiled-pattern-judged')
+            for s in case['chain']:
+                if s[0] == 'forward' and len(set(r[0] for r in s[1])) < len(s[1]):
+                    R.hit('same-pattern-text-rules-judged')
+                    texts = [r[0] for r in s[1]]
+                    R.observe('same-pattern-text-forms', tuple(sorted(
+                        (_flags(r), r[2]) for r in s[1] if texts.count(r[0]) > 1)))
             if info.get('second'):
                 R.hit('second-enqueue-judged')
             if info.get('direct'):
@@ -968,6 +1004,8 @@ def run_case(case, R):
         base = clause[6:] if clause.startswith('reuse-') else clause
         if base in ('rcpts', 'crash', 'direct-rcpts', 'direct-crash'):
             mech += '/rcpts-' + rcpt_class(small['rcpts'])
+        if any(sp_[0] == 'forward' and len(set(r[0] for r in sp_[1])) < len(sp_[1]) for sp_ in small['chain']):
+            mech += '/same-pattern-text-rules'       # the failure needs two rules with one pattern text
         if header_fields(small) and hdr_class(small) != 'plain':
             mech += '/hdr-' + hdr_class(small)       # the failure needs an odd header block
         for flag, default in FLAG_DEFAULTS:
